@@ -106,8 +106,8 @@ Winners(S, prop) ==
        /\ \A k \in W : ~Busy(S, prop[k])
        /\ \A a, b \in W : a # b => prop[a] # prop[b]
        /\ \A k \in DOMAIN prop \ W : Busy(S, prop[k]) \/ \E w \in W : prop[w] = prop[k]}
-MCpu(m) == IF m = Foreign THEN Cpu(CHOOSE x \in Machines : TRUE) ELSE Cpu(m)
-MBw(m) == IF m = Foreign THEN Bw(CHOOSE x \in Machines : TRUE) ELSE Bw(m)
+MCpu(m) == Cpu(m)
+MBw(m) == Bw(m)
 (* Task.update_allocation(machine): applied to every proposed entry whose   *)
 (* machine differs from the recorded one                                   *)
 UpdateAlloc1(S, o, k, m) ==
